@@ -192,6 +192,7 @@ func runC09(c *Ctx) {
 			c.Sample("case " + stack + ": " + strings.Join(items, " ; "))
 		}
 	}
+	mixedStackCases(c, []string{"bp:2f64(cow(mem,mem))", "bp:2f64(ro(mem))", "bp:2f64(re:0(mem))", "bp:2f(cow(bp:2f64(mem),mem))"}, map[bool]int{false: 120, true: 4000}[c.Tier == "thorough"], "ux")
 	runC09OverUnion(c)
 	// RealPath of in-root names = Join(root, name), also for names that repeat the root's own
 	// segments (root /a, name /a/b -> /a/a/b); escaping names are C08's business
